@@ -16,7 +16,7 @@ RULE = ('Hypothesis rule-based state machine. State: a pool of trees (fixed seed
         'of printer objects (pretty with drawn indent, all 16 minify flag combinations, Unparser(rules=(obfuscate, '
         'indent)), default Unparser, and Unparsers that share rule objects: one minify / indent / obfuscate rule configuring several of them, also under instance-level layout handlers; the model printer of such a configuration is built from private rule objects). Rules: print_full(printer, tree); print_abandon(printer, tree, k) (k fragments, '
         'then the generator is closed or dropped); print_raising(printer) (a tree holding a node kind without '
-        'definition); new_printer; new_tree; shortcut(text, kind). Model: the fragment list a *fresh* printer of the '
+        'definition); extract(tree) (ast_to_dict, the value-yielding unparser); new_printer; new_tree; shortcut(text, kind). Model: the fragment list a *fresh* printer of the '
         'same configuration produced for the tree the first time the pair was seen (for the fixed seed trees: produced in a separate fresh interpreter, so that process-wide state cannot reach the model); every later full print must '
         'equal it (text, line, column, name, source). Invariant after every step: the deep fingerprint of every '
         'pooled tree (all attributes incl. positions, token tables, comments) and of the shared rule tables / '
@@ -41,6 +41,8 @@ SEED_SOURCES = [
     ('function h() { try { run(); } catch (e) { log(e); report(err, x); } }', False),
     ('function k() { try { f(); } catch (log) { g(log); try { h(); } catch (err) { report(log, err); } } }', False),
     ('try { a(); } catch (report) { report(e); } function m(x) { try { x(); } catch (run) { e(run, log); } }', False),
+    # directive prologues and literal data, for the extractor (an unparser that yields values)
+    ('"use strict"; var conf = {"k": [1, 2], "s": "t"}; function f() { "use strict"; return conf; }', False),
 ]
 
 CONFIGS = [('pretty', '  '), ('pretty', '\t'), ('pretty', ''), ('default',), ('shared_min',), ('shared_min_indent',),
@@ -222,6 +224,17 @@ class World(object):
         if len(seen) >= 2 and (obf or dirty):
             self.interesting = True
 
+    def extract(self, ti, fold):
+        """the extractor is an unparser too: converting a tree to a dictionary leaves the tree alone"""
+        self.history.append(['extract', ti, fold])
+        from calmjs.parse.unparsers.extractor import ast_to_dict
+        ti %= len(self.trees)
+        self.touched.add(ti)
+        try:
+            ast_to_dict(self.trees[ti][1], fold_ops=bool(fold))
+        except Exception:
+            pass   # what it returns or rejects is C19's business; the invariant below is what counts here
+
     def print_wide(self, pi):
         """a scope wide enough for two-letter generated names, printed by a (re)used printer; at most
         twice per history (it is expensive)"""
@@ -308,7 +321,10 @@ class World(object):
         from calmjs.parse.unparsers.es5 import pretty_print, minify_print
         from calmjs.parse.walkers import ReprWalker
         if kind == 'str':
+            fp = fingerprint(t)
             a, b = str(t), pretty_print(t)
+            if fingerprint(t) != fp:
+                raise Violation('tree_modified_by_str', {'source': src})
             from calmjs.parse.walkers import Walker
             for sub in Walker().walk(t):
                 if str(sub) != pretty_print(sub):
@@ -367,6 +383,8 @@ class World(object):
             self.print_abandon(op[1], op[2], op[3], op[4])
         elif name == 'print_raising':
             self.print_raising(op[1], op[2])
+        elif name == 'extract':
+            self.extract(op[1], op[2])
         elif name == 'shortcut':
             self.shortcut(op[1], op[2], op[3])
         self.check_invariant()
@@ -465,6 +483,10 @@ class Machine(RuleBasedStateMachine):
     @rule(pi=st.integers(0, 40), variant=st.integers(0, 1))
     def print_raising(self, pi, variant):
         self._do(self.w.print_raising, pi, variant)
+
+    @rule(ti=st.integers(0, 40), fold=st.booleans())
+    def extract(self, ti, fold):
+        self._do(self.w.extract, ti, fold)
 
     @rule(src=SHORT_SRC, kind=st.sampled_from(['str', 'pretty', 'pretty_indent', 'minify', 'minify_flags',
                                                'minify_shadow', 'parse']), wc=st.booleans())
